@@ -458,6 +458,68 @@ Fixpoint lrun (l : lst) (log : list lact) : option lst :=
   | a :: r => match lstep l a with Some l' => lrun l' r | None => None end
   end.
 
+(** ** compressed log: the collector's per-bucket events come in runs
+
+    `pre_gc` / `post_gc` visit ALL buckets in ascending order (millions of events per run of
+    the check): the harness writes a maximal run of consecutive buckets as one line.
+    [llock_run l first count] = [count] times [LLock], [lunlock_run] likewise
+    (ConcCacheLog.v: [lock_run_eq], [unlock_run_eq]), computed in one pass. *)
+
+Fixpoint clear_range (l : list lentry) (first count : nat) {struct l} : list lentry :=
+  match l with
+  | [] => []
+  | x :: r =>
+    match first, count with
+    | S f, _ => x :: clear_range r f count
+    | O, S c => LEmpty :: clear_range r O c
+    | O, O => l
+    end
+  end.
+
+Definition llock_run (l : lst) (first count : nat) : option lst :=
+  match count, lph l with
+  | S _, GLock =>
+    if Nat.eqb first (lnext l) && Nat.leb (first + count) (length (lb l))
+    then Some (mkL (lt l) (clear_range (lb l) first count) GLock (first + count))
+    else None
+  | _, _ => None
+  end.
+
+Definition lunlock_run (l : lst) (first count : nat) : option lst :=
+  let next := match lph l with GSweep => 0 | _ => lnext l end in
+  match count, lph l with
+  | S _, GSweep | S _, GUnlock =>
+    if Nat.eqb first next && Nat.leb (first + count) (length (lb l))
+    then Some (mkL (lt l) (lb l) GUnlock (first + count))
+    else None
+  | _, _ => None
+  end.
+
+Inductive clact :=
+| CL (a : lact)
+| CLockRun (first count : nat)        (* EV CL *)
+| CUnlockRun (first count : nat).     (* EV CU *)
+
+Definition clstep (l : lst) (a : clact) : option lst :=
+  match a with
+  | CL a0 => lstep l a0
+  | CLockRun f c => llock_run l f c
+  | CUnlockRun f c => lunlock_run l f c
+  end.
+
+Definition cexpand (a : clact) : list lact :=
+  match a with
+  | CL a0 => [a0]
+  | CLockRun f c => map LLock (seq f c)
+  | CUnlockRun f c => map LUnlock (seq f c)
+  end.
+
+Fixpoint clrun (l : lst) (log : list clact) : option lst :=
+  match log with
+  | [] => Some l
+  | a :: r => match clstep l a with Some l' => clrun l' r | None => None end
+  end.
+
 (** ** the projection of the full model onto the log *)
 
 Definition kerase (s : kst) (a : kact) (r : kres) : option lact :=
